@@ -181,3 +181,163 @@ Print Assumptions c01_prefix_sys_partial.
 Print Assumptions c01_pair_unguarded_refuted.
 Print Assumptions c01_pair_channel_closed_regression.
 Print Assumptions c01_send_data_payload.
+
+(* ==================================================================================================
+   The lift to the pair model (two connections + network): every step of a pair trace refines a list
+   of data-path ops, for each direction (writer sd -> reader other sd).
+     c01_poll_is_data_events        what one VirtualSocket::poll does to the ring, the segment table,
+                                    the receiver, the ack counter and the data packets emitted is a list
+                                    of data events (Pair/Pair_Refine.v) applied to the data view;
+                                    deliveries come from messages of the inbox; an error event only
+                                    when the poll returned Ready
+     c01_sender_events_are_dp_ops / c01_receiver_events_are_dp_ops
+                                    data events are DP ops (sender side: all of them; receiver side:
+                                    all but the acceptance of the peer's FIN and the error queued at
+                                    death, for which DP has no op)
+     c01_pair_step_refines_dp       every pair op (clock, hole, application op and poll of either
+                                    endpoint, deliver / drop / duplicate) maps to DP ops re-establishing
+                                    the relation psim, while the direction is LIVE after the step
+     c01_pair_init_refines_dp       pair_new is dp_init, for both directions
+     c01_pair_trace_refines_dp      all op lists
+     c01_prefix_pair_trace_partial  what the reader has read is a prefix of what the writer wrote, on
+                                    every pair trace from pair_new along which the direction stays live,
+                                    whenever the matching data-path run is guarded (d_clean: KF1,
+                                    d_wrap: 16-bit).  PARTIAL: (1) states after the reader accepted the
+                                    writer's FIN, or after the reader's future is gone, are not covered
+                                    (DP has no end-of-stream / error marker); (2) the guards are those of
+                                    the data-path run, not yet derived from the classifier c01_kf1_class
+                                    of the trace.
+     c01_live_nonvacuous            the hypotheses hold on a recorded 3000-byte transfer. *)
+From Utp Require Import Pair.Pair_Refine Pair.Pair_RefineWalk Pair.Pair_RefineWalkPoll Pair.Pair_RefineSim
+  Pair.Pair_RefinePair Pair.Pair_RefineTrace Pair.Pair_RefineWitness.
+
+Theorem c01_poll_is_data_events : forall (CC : Type) (cci : cc_iface CC) (s : vsock CC),
+  ss_ok (v_ss s) -> poll_post (v_inbox s) (poll_reset s) (poll cci s).
+Proof. exact @poll_ev. Qed.
+
+Theorem c01_sender_events_are_dp_ops : forall (isn ti : Z) (evs : list dev) (st : dst) (d : dp),
+  dp_tx_inv isn ti d -> wrel st d ->
+  exists dops : list dop, wrel (drun st evs) (dp_run d dops) /\ wframe d (dp_run d dops).
+Proof. exact wsim_run. Qed.
+
+Theorem c01_receiver_events_are_dp_ops : forall (evs : list dev) (st : dst) (d : dp),
+  rrel st d ->
+  Forall (fun e : dev => forall (seq : Z) (pl : list Z), e = EvData seq pl -> in_net d (seq, pl)) evs ->
+  existsb is_fin_ev evs = false -> existsb is_err_ev evs = false ->
+  exists dops : list dop, rrel (drun st evs) (dp_run d dops) /\ rframe d (dp_run d dops).
+Proof. exact rsim_run. Qed.
+
+Theorem c01_pair_step_refines_dp : forall (CC : Type) (cci : cc_iface CC) (isn ti : Z) (sd : side)
+    (s : pair (CC := CC)) (d : dp) (o : pop),
+  psim isn ti sd s d -> dir_live sd (fst (pstep cci s o)) = true ->
+  exists dops : list dop, psim isn ti sd (fst (pstep cci s o)) (dp_run d dops).
+Proof. exact @pstep_refines. Qed.
+
+Theorem c01_pair_init_refines_dp : forall (CC : Type) (cci : cc_iface CC) (mk_cc : Z -> Z -> CC) (c : pconfig)
+    (s0 : pair (CC := CC)) (sd : side),
+  pconfig_ok c = true -> pair_new cci mk_cc c = Some s0 ->
+  psim (dir_isn sd c) (pc_tx_init c) sd s0 (dir_init sd c).
+Proof. exact @pair_new_psim. Qed.
+
+Theorem c01_pair_trace_refines_dp : forall (CC : Type) (cci : cc_iface CC) (isn ti : Z) (sd : side) (ops : list pop)
+    (s : pair (CC := CC)) (d : dp),
+  psim isn ti sd s d -> live_run cci sd s ops = true ->
+  exists dops : list dop, psim isn ti sd (prun cci s ops) (dp_run d dops).
+Proof. exact @pair_trace_refines. Qed.
+
+Theorem c01_prefix_pair_trace_partial : forall (CC : Type) (cci : cc_iface CC) (mk_cc : Z -> Z -> CC) (c : pconfig)
+    (s0 : pair (CC := CC)) (sd : side) (ops : list pop),
+  pconfig_ok c = true -> pair_new cci mk_cc c = Some s0 -> live_run cci sd s0 ops = true ->
+  exists dops : list dop,
+    let d := dp_run (dir_init sd c) dops in
+    let s := prun cci s0 ops in
+    psim (dir_isn sd c) (pc_tx_init c) sd s d /\
+    (dp_guards d = true -> is_prefix (g_read (v_rx (ep s (other sd)))) (g_written (v_tx (ep s sd)))).
+Proof. exact @pair_trace_prefix. Qed.
+
+Theorem c01_live_nonvacuous :
+  exists s0 : pair (CC := unit),
+    pair_new (fixed_cc 100000) (fun _ _ => tt) d17_cfg = Some s0 /\
+    pconfig_ok d17_cfg = true /\
+    live_run (fixed_cc 100000) SA s0 d17_pair_ops = true /\
+    ha_len (p_rb (prun (fixed_cc 100000) s0 d17_pair_ops)) = 528 /\
+    ha_len (p_wa (prun (fixed_cc 100000) s0 d17_pair_ops)) = 3000.
+Proof. exact live_run_nonvacuous. Qed.
+
+Print Assumptions c01_poll_is_data_events.
+Print Assumptions c01_sender_events_are_dp_ops.
+Print Assumptions c01_receiver_events_are_dp_ops.
+Print Assumptions c01_pair_step_refines_dp.
+Print Assumptions c01_pair_init_refines_dp.
+Print Assumptions c01_pair_trace_refines_dp.
+Print Assumptions c01_prefix_pair_trace_partial.
+Print Assumptions c01_live_nonvacuous.
+
+(* FALSE of the model: the guarded predicate c01_pair_guarded (prefix property outside the class
+   c01_kf1_class) fails on a trace of the KF1 family that the classifier does not recognise: the ACK of a
+   delivered MTU probe is delayed (not lost), the probe is popped and re-segmented in a poll whose
+   transport answers Pending, and the old ACK then acknowledges the re-segmented, never-sent segment of
+   the same sequence number.  No sequence number is emitted with two lengths.  The direction is live, so
+   by c01_prefix_pair_trace_partial the matching data-path run is not guarded (d_clean flags the pop). *)
+Theorem c01_pair_guarded_refuted :
+  exists s0 : pair (CC := unit),
+    pair_new (fixed_cc 100000) (fun _ _ => tt) kf1_cfg = Some s0 /\
+    pconfig_ok kf1_cfg = true /\
+    live_run (fixed_cc 100000) SA s0 kf1_delayed_ack_ops = true /\
+    let tr := ptrace (fixed_cc 100000) s0 kf1_delayed_ack_ops in
+    let evs := pevents (fixed_cc 100000) s0 kf1_delayed_ack_ops in
+    c01_pair_ok (zip_obs kf1_delayed_ack_ops tr) = false /\ c01_kf1_class evs = false /\
+    c01_d17_class evs = false /\
+    c01_pair_guarded evs (zip_obs kf1_delayed_ack_ops tr) = false /\
+    evs = [KeEmit SA 101 528; KeEmit SA 102 991; KeDeliver SA 101 528; KeDeliver SA 102 991;
+           KeEmit SA 103 528; KeDeliver SA 103 528] /\
+    ha_len (p_rb (prun (fixed_cc 100000) s0 kf1_delayed_ack_ops)) = 2047 /\
+    ha_len (p_wa (prun (fixed_cc 100000) s0 kf1_delayed_ack_ops)) = 1980.
+Proof. exact Pair_RefineWitness.c01_pair_guarded_refuted. Qed.
+Print Assumptions c01_pair_guarded_refuted.
+
+(* The extracted predicate of one direction on every live pair trace: the cumulative (length, hash) of
+   what the reader got is, after every op, that of a prefix of what the writer's application wrote,
+   whenever the data-path run matching the trace is guarded.  PARTIAL for the same two reasons as
+   c01_prefix_pair_trace_partial (live directions only; the guard is that of the data-path run). *)
+From Utp Require Import Pair.Pair_RefineObs Pair.C01_Pred2.
+
+Theorem c01_dir_ok_pair_trace_partial : forall (CC : Type) (cci : cc_iface CC) (mk_cc : Z -> Z -> CC) (c : pconfig)
+    (s0 : pair (CC := CC)) (sd : side) (ops : list pop),
+  pconfig_ok c = true -> pair_new cci mk_cc c = Some s0 -> live_run cci sd s0 ops = true ->
+  exists dops : list dop,
+    psim (dir_isn sd c) (pc_tx_init c) sd (prun cci s0 ops) (dp_run (dir_init sd c) dops) /\
+    (dp_guards (dp_run (dir_init sd c) dops) = true ->
+     c01_dir_ok (other sd) (zip_obs ops (ptrace cci s0 ops)) = true).
+Proof. exact @pair_trace_dir_ok. Qed.
+
+(* the widened class c01_kf1_class2 (Pair/C01_Pred2.v: a probe popped, seen in the sender's fingerprints,
+   and delivered) contains the delayed-ACK trace and the original KF1 trace and not the lossy 3000-byte
+   transfer; c01_pair_guarded2 holds on all three *)
+Theorem c01_kf1_class2_witnesses :
+  (exists s0 : pair (CC := unit),
+     pair_new (fixed_cc 100000) (fun _ _ => tt) kf1_cfg = Some s0 /\
+     let tr := ptrace (fixed_cc 100000) s0 kf1_delayed_ack_ops in
+     let evs := pevents (fixed_cc 100000) s0 kf1_delayed_ack_ops in
+     let fps := pair_fps (fixed_cc 100000) s0 tr in
+     c01_kf1_class evs = false /\ c01_kf1_popped_dir SA fps evs = true /\ c01_kf1_class2 fps evs = true /\
+     pops_of SA fps = [(102, 991)] /\
+     c01_pair_guarded2 fps evs (zip_obs kf1_delayed_ack_ops tr) = true) /\
+  (exists s0 : pair (CC := unit),
+     pair_new (fixed_cc 100000) (fun _ _ => tt) kf1_cfg = Some s0 /\
+     let tr := ptrace (fixed_cc 100000) s0 kf1_pair_ops in
+     let evs := pevents (fixed_cc 100000) s0 kf1_pair_ops in
+     let fps := pair_fps (fixed_cc 100000) s0 tr in
+     c01_kf1_class evs = true /\ c01_kf1_popped_dir SA fps evs = true /\ c01_kf1_class2 fps evs = true /\
+     c01_pair_guarded2 fps evs (zip_obs kf1_pair_ops tr) = true) /\
+  (exists s0 : pair (CC := unit),
+     pair_new (fixed_cc 100000) (fun _ _ => tt) d17_cfg = Some s0 /\
+     let tr := ptrace (fixed_cc 100000) s0 d17_pair_ops in
+     let evs := pevents (fixed_cc 100000) s0 d17_pair_ops in
+     let fps := pair_fps (fixed_cc 100000) s0 tr in
+     c01_kf1_class2 fps evs = false /\ c01_pair_ok (zip_obs d17_pair_ops tr) = true /\
+     c01_pair_guarded2 fps evs (zip_obs d17_pair_ops tr) = true).
+Proof. exact Pair_RefineWitness.c01_kf1_class2_witnesses. Qed.
+
+Print Assumptions c01_dir_ok_pair_trace_partial.
+Print Assumptions c01_kf1_class2_witnesses.
